@@ -36,6 +36,20 @@ func (ig *ingest) moreGates(e *Effect) {
 		has := func(at *Atom) bool { return ev.Has(at) != nil }
 		ev.Verdict("L7.prepared", props("C05", "C11"), "the prepared-quorum test for (h, v, hash) is not skipped merely because the node is already prepared in some other view (it must be able to prepare, and send COMMIT, again in a later view)", "",
 			evalBool(isPrepared, has) != -1, "the path to the prepared test requires the node to be unprepared in every view")
+		// ... and the only thing that may skip it is being prepared in exactly this view: no order comparison between
+		// the view the node is prepared in and the view under test
+		lv := Field(pl, "latestView").Key()
+		var extra []string
+		for _, ct := range ev.E.PathConds() {
+			unsnap(ct).Walk(func(t *Term) {
+				if t.Op == "bin" && (t.Name == "<" || t.Name == "<=") && len(t.Args) == 2 && (t.Args[0].ContainsKey(lv) || t.Args[1].ContainsKey(lv)) {
+					extra = append(extra, PP(t))
+				}
+			})
+		}
+		extra = dedupSorted(extra)
+		ev.Verdict("L7.prepared.exact", props("C05", "C09", "C11"), "the prepared-quorum test for view v is skipped only when the node is already prepared in exactly view v (being prepared in an older or newer view must not stop it from preparing, and locking, again)", "",
+			len(extra) == 0, "the path to the prepared test orders the prepared view against another view: "+strings.Join(extra, ", "))
 	// VC9: a non-empty proof is bound to the vote's instance
 	case e.Config == "vc-proof-and-block" && e.Kind == "call" && e.Name == "interfaces.StoreViewChange" && len(e.Args) == 2 && isNetMsg(e.Args[1]):
 		ev := a.NewEval(e, ig.r)
@@ -112,8 +126,139 @@ func (ig *ingest) proofInstanceInNV(ev *Eval, votes *Term) {
 
 // ---------------------------------------------------------------- structural rules
 
+// instrReaches: is `to` reachable from the point right after `from` (same function)?
+func instrReaches(from, to ssa.Instruction) bool {
+	b := from.Block()
+	after := false
+	for _, in := range b.Instrs {
+		if after && in == to {
+			return true
+		}
+		if in == from {
+			after = true
+		}
+	}
+	seen := map[*ssa.BasicBlock]bool{}
+	stack := append([]*ssa.BasicBlock{}, b.Succs...)
+	for len(stack) > 0 {
+		n := stack[len(stack)-1]
+		stack = stack[:len(stack)-1]
+		if seen[n] {
+			continue
+		}
+		seen[n] = true
+		if n == to.Block() {
+			// reached the block from its start: every instruction of it, including `to`
+			return true
+		}
+		stack = append(stack, n.Succs...)
+	}
+	return false
+}
+
 func runMore(a *Analyzer, r *Results) {
 	k := a.Anchors()
+	// ---- consumer callbacks: each is invoked synchronously (not deferred, not in a goroutine) and at most once per
+	// pass through the function that invokes it; the new-round callback runs before the future cache is drained
+	{
+		cbText := map[string]string{
+			"interfaces.OnCommitCallback":            "G6.once",
+			"interfaces.OnNewConsensusRoundCallback": "H6.cb.once",
+		}
+		count := map[string]int{}
+		for _, f := range a.P.Funcs {
+			var sites []ssa.Instruction
+			var kinds []string
+			var drains []ssa.Instruction
+			for _, b := range f.Blocks {
+				for _, in := range b.Instrs {
+					ci, ok := in.(ssa.CallInstruction)
+					if !ok {
+						continue
+					}
+					cc := ci.Common()
+					if g := cc.StaticCallee(); g != nil && funcID(g) == idE2 {
+						drains = append(drains, in)
+					}
+					if cc.IsInvoke() || cc.StaticCallee() != nil {
+						continue
+					}
+					if _, isB := cc.Value.(*ssa.Builtin); isB {
+						continue
+					}
+					vt := typeShort(cc.Value.Type())
+					if cbText[vt] == "" {
+						continue
+					}
+					sites = append(sites, in)
+					kinds = append(kinds, vt)
+				}
+			}
+			for i, in := range sites {
+				rule := cbText[kinds[i]]
+				count[rule]++
+				_, isCall := in.(*ssa.Call)
+				why := ""
+				if !isCall {
+					why = "the callback is deferred or started in a goroutine: it runs after what follows in " + shortName(f)
+				}
+				for j, other := range sites {
+					if kinds[j] == kinds[i] && why == "" && instrReaches(in, other) {
+						why = "the callback can be invoked again at " + a.P.InstrPos(other) + " in the same pass (the same height is reported twice)"
+					}
+				}
+				if kinds[i] == "interfaces.OnNewConsensusRoundCallback" && why == "" {
+					for _, d := range drains {
+						if instrReaches(d, in) {
+							why = "the callback is reachable after the future cache was drained at " + a.P.InstrPos(d) + ": a cached message may already have started a later round"
+						}
+					}
+				}
+				text := "the commit callback is invoked synchronously and at most once per decided block (a height is never handed to the consumer twice)"
+				pr := props("C13")
+				if rule == "H6.cb.once" {
+					text = "the new-round callback is invoked synchronously, at most once per round and before the future cache is drained (rounds are announced in increasing height order)"
+					pr = props("C13")
+				}
+				r.Check(rule, pr, text, shortName(f), a.P.InstrPos(in), why == "", why, "P")
+			}
+		}
+		// H7.drain: a round that installed a new term always goes on to drain the future cache into it (the messages
+		// received ahead of time for this height are delivered when the node starts it, whatever its role in it)
+		nTerm := 0
+		for _, f := range a.P.Funcs {
+			for _, b := range f.Blocks {
+				for _, in := range b.Instrs {
+					st, ok := in.(*ssa.Store)
+					if !ok || a.addrLoc(st.Addr) != "leanhelix.WorkerLoop.leanHelixTerm" {
+						continue
+					}
+					if kc, isConst := st.Val.(*ssa.Const); isConst && kc.IsNil() {
+						continue
+					}
+					nTerm++
+					ok2 := mustReach(in, func(i2 ssa.Instruction) bool {
+						ci, ok := i2.(ssa.CallInstruction)
+						if !ok {
+							return false
+						}
+						g := ci.Common().StaticCallee()
+						return g != nil && funcID(g) == idE2
+					})
+					r.Check("H7.drain", props("C17"), "once a round has installed its term, every path goes on to drain the future cache into it (messages cached for this height are delivered when the node starts it)", shortName(f), a.P.InstrPos(in), ok2,
+						"a path after the new term is installed returns without draining the future cache", "P")
+				}
+			}
+		}
+		if nTerm == 0 {
+			r.Undecided = append(r.Undecided, "H7.drain: no store of a new term found (anchor)")
+		}
+		for _, rule := range []string{"G6.once", "H6.cb.once"} {
+			if count[rule] == 0 {
+				r.Undecided = append(r.Undecided, rule+": no invocation of the consumer callback found (anchor)")
+			}
+		}
+	}
 	// ---- LK2.reset: the prepared latch (the node's lock) lives as long as the term: it is cleared only while a term is
 	// constructed. Clearing it when a view changes would let the node vote without its prepared proof.
 	{
